@@ -544,7 +544,7 @@ Proof.
         try (intros Eb Eg; split; [auto|cbn; tauto]).
     + (* early return: only after genesis, with no conditional open *)
       destruct (run_ops_return so c Hso _ _ _ _ _ _ E) as [Hag Hc1].
-      destruct lock as [|l lrest]; [cbn; discriminate|].
+      destruct lock as [|l lrest]; [apply finish_no_panic|].
       eapply run_lock_no_panic; eauto; try (intros Eb Eg; congruence).
     + discriminate.
     + congruence.
